@@ -109,8 +109,9 @@ def rule_r2(rep, program: Program):
     return r
 
 
-def rule_r3(rep, program: Program):
-    r = rep.rule("R3", "worker outputs are restored to chain-index order before collation; the index travels with arguments and results", floor=3)
+def rule_r3(rep, program: Program, prop=PROP, rule="R3"):
+    PROP = prop  # noqa: N806 - shared with C13 (final_states[c] / traces[c] belong to chain c)
+    r = rep.rule(rule, "worker outputs are restored to chain-index order before collation; the index travels with arguments and results", floor=3)
     f = program.func("samplers", "_sample_chains_parallel")
     w = program.func("samplers", "_sample_chains_worker")
     # index put with kwargs
@@ -133,50 +134,163 @@ def rule_r3(rep, program: Program):
     r.inst({"worker result": norm(apps[0].args[0]) if apps else None})
     if not ok:
         r.violate(PROP, "_sample_chains_worker:index-not-returned", "the worker does not return the chain index it received together with the chain's outputs", node=w.node, file=w.file)
-    # ordering before building chain_outputs
-    collected = [n for n in ast.walk(f.node) if isinstance(n, ast.Assign) and any(isinstance(c, ast.Call) and norm(c.func) == "results.get" for c in ast.walk(n.value))]
-    if not collected:
+    # ordering: abstract "order" of every list between results.get() and _collate_chain_outputs
+    oa = _OrderFlow(f)
+    oa.block(f.node.body)
+    coll = [n for n in ast.walk(f.node) if isinstance(n, ast.Call) and norm(n.func) == "_collate_chain_outputs"]
+    if not coll or not coll[0].args:
+        raise AnalysisError("_sample_chains_parallel: _collate_chain_outputs(...) call not found")
+    if not oa.saw_source:
         raise AnalysisError("_sample_chains_parallel: results.get() not found")
-    var = norm(collected[0].targets[0])
-    build = [n for n in ast.walk(f.node) if isinstance(n, ast.Assign) and norm(n.targets[0]) == "chain_outputs" and not (isinstance(n.value, ast.List) and not n.value.elts)]
-    sorted_ok = False
-    how = None
-    sorted_vars = set()
-    stmts = sorted((n for n in ast.walk(f.node) if isinstance(n, (ast.Assign, ast.Expr))), key=lambda n: n.lineno)
-
-    def good_sorted_call(c):
-        if isinstance(c, ast.Call) and norm(c.func) == "sorted" and c.args:
-            key = next((k.value for k in c.keywords if k.arg == "key"), None)
-            return key is None or _key_is_index(key)
-        return False
-
-    derived = {var}
-    for st in stmts:
-        if isinstance(st, ast.Expr) and isinstance(st.value, ast.Call) and isinstance(st.value.func, ast.Attribute) and st.value.func.attr == "sort" and norm(st.value.func.value) in derived:
-            key = next((k.value for k in st.value.keywords if k.arg == "key"), None)
-            if key is None or _key_is_index(key):
-                sorted_vars.add(norm(st.value.func.value))
-                how = norm(st.value)
-        if isinstance(st, ast.Assign) and len(st.targets) == 1 and isinstance(st.targets[0], ast.Name):
-            v = st.value
-            if good_sorted_call(v) and norm(v.args[0]) in derived:
-                sorted_vars.add(st.targets[0].id)
-                derived.add(st.targets[0].id)
-                how = norm(v)
-            elif st.targets[0].id in sorted_vars and not any(x is st for x in collected):
-                sorted_vars.discard(st.targets[0].id)
-    for b in build:
-        gens = [g for c in ast.walk(b.value) if isinstance(c, (ast.ListComp, ast.GeneratorExp)) for g in c.generators]
-        for g in gens:
-            if isinstance(g.iter, ast.Name) and g.iter.id in sorted_vars:
-                sorted_ok = True
-            if good_sorted_call(g.iter) and norm(g.iter.args[0]) in derived:
-                sorted_ok = True
-                how = norm(g.iter)
-    r.inst({"ordering": how})
-    if not sorted_ok:
-        r.violate(PROP, "_sample_chains_parallel:outputs-not-ordered", "outputs gathered from the workers are collated in completion order, not chain-index order: final states / adapter states are attributed to the wrong chains depending on scheduling", node=build[0] if build else f.node, file=f.file)
+    arg = coll[0].args[0]
+    got = oa.order(arg)
+    r.inst({"collated value": norm(arg), "order": ORDER_NAMES[got], "ordering step": oa.how})
+    if got == ARRIVAL:
+        r.violate(PROP, "_sample_chains_parallel:outputs-not-ordered", "outputs gathered from the workers are collated in completion order, not chain-index order: final states / adapter states are attributed to the wrong chains depending on scheduling", node=oa.last_def.get(norm(arg), coll[0]), file=f.file)
+    elif got == CLEAN:
+        raise AnalysisError("_sample_chains_parallel: the collated list does not derive from results.get()")
     return r
+
+
+CLEAN, INDEX, ARRIVAL = 0, 1, 2
+ORDER_NAMES = {CLEAN: "independent of the workers", INDEX: "chain-index order", ARRIVAL: "worker completion order"}
+
+
+class _OrderFlow:
+    """Flow-sensitive (line order, branches joined by max) order typing of the local lists of
+    _sample_chains_parallel: ARRIVAL for anything read from results.get(), INDEX after a sort by the
+    chain index (first tuple element) or an index-addressed store."""
+
+    def __init__(self, f):
+        self.f = f
+        self.env: dict[str, int] = {}
+        self.loops: list[tuple[int, set]] = []
+        self.saw_source = False
+        self.how = None
+        self.last_def: dict[str, ast.AST] = {}
+
+    def order(self, e) -> int:
+        if e is None:
+            return CLEAN
+        if isinstance(e, ast.Name):
+            return self.env.get(e.id, CLEAN)
+        if isinstance(e, ast.Call) and norm(e.func) == "results.get":
+            self.saw_source = True
+            return ARRIVAL
+        if isinstance(e, ast.Call) and norm(e.func) in ("len", "sum", "min", "max", "set", "frozenset", "any", "all"):
+            for a in e.args:
+                self.order(a)  # records the source
+            return CLEAN  # order-insensitive aggregates
+        if isinstance(e, ast.Call) and norm(e.func) == "sorted" and e.args:
+            key = next((k.value for k in e.keywords if k.arg == "key"), None)
+            inner = self.order(e.args[0])
+            if inner != CLEAN and (key is None or _key_is_index(key)):
+                self.how = norm(e)
+                return INDEX
+            return inner
+        if isinstance(e, (ast.ListComp, ast.GeneratorExp, ast.SetComp, ast.DictComp)):
+            saved = dict(self.env)
+            o = CLEAN
+            for g in e.generators:
+                go = self.order(g.iter)
+                o = max(o, go)
+                for n in ast.walk(g.target):
+                    if isinstance(n, ast.Name):
+                        self.env[n.id] = go
+            self.env = saved
+            return o
+        o = CLEAN
+        for c in ast.iter_child_nodes(e):
+            if isinstance(c, ast.expr):
+                o = max(o, self.order(c))
+        return o
+
+    def block(self, stmts):
+        for st in stmts:
+            self.stmt(st)
+
+    def stmt(self, st):
+        if isinstance(st, ast.Assign) and len(st.targets) == 1:
+            t = st.targets[0]
+            o = self.order(st.value)
+            if isinstance(t, ast.Name):
+                loop_o = max([lo for lo, _ in self.loops], default=CLEAN)
+                self.env[t.id] = o if not self.loops else max(o, CLEAN)
+                self.last_def[t.id] = st
+                _ = loop_o
+            elif isinstance(t, ast.Tuple):
+                for n in ast.walk(t):
+                    if isinstance(n, ast.Name):
+                        self.env[n.id] = o
+            elif isinstance(t, ast.Subscript) and isinstance(t.value, ast.Name):
+                # index-addressed store: x[i] = ... with i the chain index of the current loop item
+                idx_names = set().union(*[ix for _, ix in self.loops]) if self.loops else set()
+                if isinstance(t.slice, ast.Name) and t.slice.id in idx_names:
+                    self.env[t.value.id] = max(INDEX, self.env.get(t.value.id, CLEAN)) if self.env.get(t.value.id, CLEAN) != ARRIVAL else ARRIVAL
+                    self.how = norm(st)
+                    self.last_def[t.value.id] = st
+                else:
+                    self.env[t.value.id] = max(self.env.get(t.value.id, CLEAN), o, max([lo for lo, _ in self.loops], default=CLEAN))
+            return
+        if isinstance(st, ast.AugAssign) and isinstance(st.target, ast.Name):
+            self.env[st.target.id] = max(self.env.get(st.target.id, CLEAN), self.order(st.value), max([lo for lo, _ in self.loops], default=CLEAN))
+            self.last_def[st.target.id] = st
+            return
+        if isinstance(st, ast.Expr) and isinstance(st.value, ast.Call) and isinstance(st.value.func, ast.Attribute) and isinstance(st.value.func.value, ast.Name):
+            c = st.value
+            name = c.func.value.id
+            if c.func.attr == "sort":
+                key = next((k.value for k in c.keywords if k.arg == "key"), None)
+                if self.env.get(name, CLEAN) != CLEAN and (key is None or _key_is_index(key)):
+                    self.env[name] = INDEX
+                    self.how = norm(c)
+                return
+            if c.func.attr in ("append", "extend", "insert"):
+                o = max([self.order(a) for a in c.args], default=CLEAN)
+                self.env[name] = max(self.env.get(name, CLEAN), o, max([lo for lo, _ in self.loops], default=CLEAN))
+                self.last_def[name] = st
+                return
+            if c.func.attr == "reverse":
+                if self.env.get(name, CLEAN) == INDEX:
+                    self.env[name] = ARRIVAL
+                return
+            self.order(c)
+            return
+        if isinstance(st, ast.For):
+            lo = self.order(st.iter)
+            names = [n.id for n in ast.walk(st.target) if isinstance(n, ast.Name)]
+            for n in names:
+                self.env[n] = lo
+            first = set()
+            if isinstance(st.target, ast.Tuple) and isinstance(st.target.elts[0], ast.Name):
+                first = {st.target.elts[0].id}
+            self.loops.append((lo, first))
+            self.block(st.body)
+            self.loops.pop()
+            self.block(st.orelse)
+            return
+        if isinstance(st, ast.If):
+            base = dict(self.env)
+            self.block(st.body)
+            a = self.env
+            self.env = dict(base)
+            self.block(st.orelse)
+            b = self.env
+            self.env = {k: max(a.get(k, CLEAN), b.get(k, CLEAN)) for k in set(a) | set(b)}
+            return
+        if isinstance(st, ast.Try):
+            self.block(st.body)
+            for h in st.handlers:
+                self.block(h.body)
+            self.block(st.orelse)
+            self.block(st.finalbody)
+            return
+        if isinstance(st, (ast.With, ast.While)):
+            self.block(st.body)
+            return
+        for c in ast.walk(st):
+            if isinstance(c, ast.Call) and norm(c.func) == "results.get":
+                self.saw_source = True
 
 
 def _key_is_index(key) -> bool:
